@@ -102,19 +102,28 @@ def covering(params, budget, rng, tries=60):
         for i, a in enumerate(names):
             for b in names[i + 1:]:
                 need.discard((a, best[a], b, best[b]))
+    # whatever the budget and the luck of the candidates: every value of every parameter occurs in some row
+    k = 0
+    for a in names:
+        for va in dict.fromkeys(params[a]):
+            if rows and not any(r[a] == va for r in rows):
+                # overwrite a row whose value for `a` occurs more than once
+                cand = [r for r in rows if sum(1 for q in rows if q[a] == r[a]) > 1] or rows
+                cand[k % len(cand)][a] = va
+                k += 1
     return rows, total - len(need), total
 
 
 def templates(ctx):
     rng = random.Random(ctx.seed * 1000003 + 24)
     q = ctx.quick()
-    be, bt, bp = (8, 8, 4) if q else (20, 20, 8)
+    be, bt, bp = (8, 8, 5) if q else (20, 20, 8)
     out = []
     # UpdateExportOptions: a whole struct
     p = {f: GIVEN for f in NF}
     p.update({f: GIVEN for f in TF})
     p.update(tp=["nil", "set"], log=["nil", "l1", "l2"], rlc=["nil", "r1"], ro=["T", "F"], maxfs=["neg", "zero", "pos"],
-             squash=["keep", "keep", "same", "other"])
+             squash=["keep", "keep", "same", "other", "case"])
     rows, c1, t1 = covering(p, be, rng)
     for r in rows:
         out.append(dict(kind="export", n={f: r[f] for f in NF}, tp=r["tp"], t={f: (r[f] if r["tp"] == "set" else "keep") for f in TF},
@@ -129,7 +138,7 @@ def templates(ctx):
         out.append(dict(kind="tuning", n={f: r[f] for f in NF}, tp=r["tp"], t={f: (r[f] if r["tp"] == "set" else "keep") for f in TF},
                         log=r["log"], rlc="keep", ro="keep", maxfs="keep", squash="keep"))
     # UpdatePolicyOptions: a whole PolicyOptions
-    p = dict(ro=["T", "F"], maxfs=["neg", "zero", "pos"], rlc=["nil", "r1"], squash=["same", "same", "other", "empty"])
+    p = dict(ro=["T", "F"], maxfs=["neg", "zero", "pos"], rlc=["nil", "r1"], squash=["same", "same", "other", "empty", "case"])
     rows, c3, t3 = covering(p, bp, rng)
     for r in rows:
         out.append(dict(kind="policy", n={f: "keep" for f in NF}, tp="keep", t={f: "keep" for f in TF}, log="keep",
